@@ -149,6 +149,15 @@ CLAIMED = {
             "panicking Error() is reported.",
             "The static clause (message templates and argument lists agree at every construction site, every code has a template) is a fact "
             "about source text and is covered only dynamically, for the error values the executions produce.", "3/C07"),
+    "C11": ("TLA+ model Life (objects with once-caches and a document cursor; TLC enumerates every history over the operation alphabet with the "
+            "expectation of each step) replayed on shared objects against fresh objects; forced map-iteration orders through a go/types-driven "
+            "source rewrite of every range-over-map site, re-running the TLC-derived case files under each order",
+            "Every history of 3 (quick) / 4 (thorough) operations over 57 operation instances on schemas, fresh and persistent documents, an enum rule "
+            "and a regex type is executed on one shared object set: each result must equal the same call on freshly built objects, each lexeme the one "
+            "TLC computes from the document cursor, and every slice / AST / list handed out must be unchanged at the end. Map order: the case files of "
+            "C01/C03/C08/C09 must give the TLC verdicts under ascending, descending and rotated iteration of every map the library ranges over.",
+            "Re-validating a partly consumed Document and reading on after a lexeme error are unspecified; histories longer than 4 only through the "
+            "structure of the model (no history argument in any result).", "3/C11"),
 }
 
 PENDING_REASON = "check under construction in this session - not claimed yet (no technique switch intended; see DESIGN.md section 3)"
